@@ -20,9 +20,16 @@ ASSUMPTIONS = ["n >= 0 (the property quantifies over 0 <= n)",
                "Ed25519: two curve points with equal y have x2 in {x1, Q-x1} (a field has at most two square roots)"]
 
 
+class _Groups(dict):
+    def __missing__(self, name):
+        from checks.realtier import custom_world
+        self[name] = custom_world(name)[0]
+        return self[name]
+
+
 def _groups():
     G = loader.MODS["groups"]
-    return {"I1024": G.I1024, "I2048": G.I2048, "I3072": G.I3072}
+    return _Groups({"I1024": G.I1024, "I2048": G.I2048, "I3072": G.I3072})
 
 
 def jobs(tier):
@@ -31,12 +38,46 @@ def jobs(tier):
           ("job_n2b_symbolic", dict(_name="n2b(maxval symbolic, bits<=%d)" % bl, maxbits=bl))]
     for nm in ("I1024.p", "I1024.q", "I2048.p", "I2048.q", "I3072.p", "I3072.q", "Ed25519.L"):
         js.append(("job_n2b_shipped", dict(_name="n2b(%s)" % nm, which=nm)))
-    for g in ("I1024", "I2048", "I3072"):
+    for g in ("I1024", "I2048", "I3072", "toy11", "toy257", "toy1019", "sp61"):
         js.append(("job_int_scalar_codec", dict(_name="scalar codec %s" % g, gname=g)))
         js.append(("job_int_element_codec", dict(_name="element codec %s" % g, gname=g)))
     js.append(("job_ed_scalar_codec", dict(_name="scalar codec Ed25519")))
     js.append(("job_ed_encodepoint", dict(_name="encodepoint Ed25519")))
+    js.append(("job_ed_to_bytes_repr", dict(_name="Ed25519 to_bytes is canonical on any (unreduced) representation with Z=1")))
+    for g in ("Ed25519", "I1024", "toy1019"):
+        js.append(("job_api_roundtrip", dict(_name="elements reached through the API round-trip and encode injectively: %s (ground)" % g, gname=g)))
     return js
+
+
+def job_ed_to_bytes_repr(J):
+    """the real ElementOfUnknownGroup.to_bytes (xform_extended_to_affine + encodepoint) on coordinates that are not
+    reduced mod Q (negative, >= Q): the encoding is still the canonical one of (X mod Q, Y mod Q)"""
+    E = loader.MODS["ed25519_basic"]
+    Q = E.Q
+
+    def h(ctx):
+        X = SymInt(ctx.fresh("X", -2 * Q, 2 * Q))
+        Y = SymInt(ctx.fresh("Y", -2 * Q, 2 * Q))
+        ctx.data["xy"] = (X, Y)
+        return E.ElementOfUnknownGroup((X, Y, 1, 0)).to_bytes()
+    for r in J.explore(h):
+        X, Y = r.ctx.data["xy"]
+        J.reach(r)
+        cex = lambda m: dict(group="Ed25519", a=1, b=2, c=3, n=1, m=1)
+        if r.kind != "ret":
+            J.claim(r, "to_bytes does not raise on an unreduced representation (%s)" % type(r.value).__name__, False, cex=cex, oracle="laws")
+            continue
+        b = SymBytes.of(r.value)
+        J.claim(r, "to_bytes encodes (X mod Q, Y mod Q): little-endian y, top bit = parity of the reduced x",
+                z3.And(len(b) == 32, b[::-1].value() == (Y.t % Q) + ((X.t % Q) % 2) * 2 ** 255), cex=cex, oracle="laws")
+
+
+def job_api_roundtrip(J, gname):
+    from checks.c13 import oracle_laws
+    v, d = oracle_laws(gname, 1, 2, 3, 5, 7)
+    J.ground("on %s every element reached through the API (scalarmult, add, decode, negate; several routes to the same "
+             "element) decodes back from its encoding and distinct elements encode differently" % gname, not v, d,
+             oracle="laws", args=dict(group=gname, a=1, b=2, c=3, n=5, m=7))
 
 
 # ------------------------------------------------------------------ util
@@ -356,7 +397,8 @@ def oracle_n2b(n, maxval):
 
 def _g(name):
     from spake2 import groups
-    return getattr(groups, name)
+    from checks import common as C
+    return getattr(groups, name) if hasattr(groups, name) else C.toy_group(name)
 
 
 def oracle_int_scalar(group, i):
@@ -427,6 +469,13 @@ def oracle_ed_encodepoint(x, y, x2, y2):
 
 
 from checks.pools import oracle_pool
-ORACLES = dict(pool=oracle_pool, sizes=oracle_sizes, n2b=oracle_n2b, int_scalar=oracle_int_scalar, int_scalar_dec=oracle_int_scalar_dec,
+
+
+def _oracle_laws(**kw):
+    from checks.c13 import oracle_laws
+    return oracle_laws(**kw)
+
+
+ORACLES = dict(laws=_oracle_laws, pool=oracle_pool, sizes=oracle_sizes, n2b=oracle_n2b, int_scalar=oracle_int_scalar, int_scalar_dec=oracle_int_scalar_dec,
                ed_scalar=oracle_ed_scalar, ed_scalar_dec=oracle_ed_scalar_dec, ed_scalar_len=oracle_ed_scalar_len,
                ed_encodepoint=oracle_ed_encodepoint)
